@@ -107,6 +107,51 @@ def work(group):
     return bad, n
 
 
+def work_arraybase(item):
+    """a user base step given PER ELEMENT (ndarray): every call yields the closed form elementwise, the generator and the
+    caller's array are left as they were, and a step with a zero component is dropped"""
+    vlib.use_repo()
+    rec, seed = item
+    rnd = random.Random(seed)
+    o = dict(rec['opts'])
+    base = q2f(o['base'])
+    x = np.array([1e-3, -4.0, 100.0])
+    bad, n = [], 0
+    for mult in ([1.0, 2.0, 0.5], [1.0, 0.0, 3.0]):
+        user = base * np.array(mult)
+        keep = user.copy()
+        o2 = dict(o)
+        try:
+            gen = build(o2, spiral=False)
+            gen.base_step = user
+        except Exception as ex:
+            return [(rec, 'array base_step: constructor raised %r' % (ex,))], 0
+        first = None
+        for call in range(3):
+            try:
+                got = [np.array(g, copy=True) for g in gen(x, rec['m'], rec['n'], rec['o'])]
+            except Exception as ex:
+                bad.append((rec, 'array base_step %s: call %d raised %r' % (mult, call + 1, ex)))
+                break
+            n += 1
+            want, ratio = expected(rec, x)
+            want = [w / base * user for w in want]
+            want = [w for w in want if (np.abs(w) > 0).all()]
+            if rec['exact']:
+                break            # exact rounding of a scaled base is not the scaled exact rounding: closed form not comparable
+            if len(got) != len(want):
+                bad.append((rec, 'array base_step %s, call %d: %d steps generated, model says %d (steps with a zero component are dropped)' % (mult, call + 1, len(got), len(want))))
+                break
+            if any((np.abs(g - w) > 1e-12 * np.abs(w)).any() for g, w in zip(got, want)):
+                j = [i for i, (g, w) in enumerate(zip(got, want)) if (np.abs(g - w) > 1e-12 * np.abs(w)).any()][0]
+                bad.append((rec, 'array base_step %s, call %d: step %d is %r, model %r' % (mult, call + 1, j, got[j].tolist(), want[j].tolist())))
+                break
+            if not np.array_equal(user, keep):
+                bad.append((rec, 'array base_step %s: the caller\'s base_step array was modified by call %d: %r -> %r' % (mult, call + 1, keep.tolist(), user.tolist())))
+                break
+    return bad, n
+
+
 def check_ln_table(rep):
     table = {2.0: 23, 3.0: 15, 4.0: 12, 8.0: 8, 16.0: 6, 1.5: 39, 10.0: 7}
     for r, v in table.items():
@@ -130,6 +175,12 @@ def run(tier, rep):
         groups.setdefault(k, []).append(r)
     items = [(repr(k), v, seed + i) for i, (k, v) in enumerate(groups.items())]
     out = vlib.pool_map(work, items)
+    # array-valued user base steps (value family, user base, not exact)
+    arr = [r for r in res.records if r['fam'] == 'value' and r['base'][0] == 'user' and r['count'] > 0]
+    rnd = random.Random(seed + 77)
+    rnd.shuffle(arr)
+    arr = arr[:(150 if tier == 'quick' else 1500)]
+    out += vlib.pool_map(work_arraybase, [(r, seed + i) for i, r in enumerate(arr)])
     ncalls = 0
     for bad, n in out:
         ncalls += n
